@@ -254,6 +254,10 @@ class Program:
         renamed: Dict[str, str] = {}
         if not trusted and not os.environ.get("SV_NO_INLINE"):
             from .inline import inline_unknown_helpers, load_baseline
+            from .normalize import desugar, forward_substitute_temps as _fst
+
+            n_ds = desugar(tree)
+            _fst(tree)  # so that `g = helper(...); for x in g:` is seen as one consumer by the inliner
 
             global _BASELINE
             if _BASELINE is None:
@@ -263,6 +267,9 @@ class Program:
             except RecursionError:
                 inlined, renamed = [], {}
             from .normalize import forward_substitute_temps, scalarise_records
+
+            if n_ds:
+                inlined = inlined + [f"desugared {n_ds} walrus / suppress() construct(s)"]
 
             n_sc = scalarise_records(tree)
             if n_sc:
